@@ -310,7 +310,7 @@ def label_ev(ev, ids):
                     k = int(sid.rsplit('.', 1)[1]) + 1
                 except ValueError:
                     k = 0
-    elif ev.get('kind') == 'job' and str(ev.get('key') or '').startswith('th_r_t_s-'):
+    elif ev.get('kind') in ('job', 'linv') and str(ev.get('key') or '').startswith('th_r_t_s-'):
         t = ids['tk_rev'].get(ev['key'][len('th_r_t_s-'):], '').split('/')[-1].split('#')[0]
     ev['lt'], ev['lk'], ev['lfr'] = t, k, fr
     return ev
